@@ -45,7 +45,7 @@ abbrev Ed := EdPoint edParams
 /-- **`Spec.onCurve` is the curve equation in the field.** -/
 theorem onCurve_iff (p : Pt) :
     onCurve p = true ↔ Dalek.Edwards.onCurve edParams.d (p.x : Fp) (p.y : Fp) := by
-  unfold Dalek.Spec.onCurve Dalek.Edwards.on
+  unfold Dalek.Spec.onCurve Dalek.Edwards.onCurve
   dsimp only
   rw [beq_iff_cast (fsub_lt _ _) (fadd_lt _ _)]
   simp only [cast_fsub, cast_fadd, cast_fmul, cast_fsq, cast_D, Nat.cast_one, edParams_d]
@@ -325,7 +325,7 @@ theorem dyy_add_one_ne_zero (y : Fp) : Dalek.FieldFacts.d * y ^ 2 + 1 ≠ 0 := b
   intro h
   by_cases hy : y = 0
   · rw [hy] at h
-    exact one_ne_zero (α := Fp) (by simpa using h)
+    exact one_ne_zero (α := Fp) (by linear_combination h)
   · apply d_not_isSquare
     refine ⟨sqrtM1 / y, ?_⟩
     have hi := sqrtM1_mul_self
@@ -336,7 +336,7 @@ theorem dyy_add_one_ne_zero (y : Fp) : Dalek.FieldFacts.d * y ^ 2 + 1 ≠ 0 := b
 theorem onCurve_iff_ratio (x y : Fp) :
     Dalek.Edwards.onCurve Dalek.FieldFacts.d x y ↔
       x ^ 2 * (Dalek.FieldFacts.d * y ^ 2 + 1) = y ^ 2 - 1 := by
-  unfold Dalek.Edwards.on
+  unfold Dalek.Edwards.onCurve
   constructor <;> intro h <;> linear_combination -h
 
 /-- `u = y² - 1` of `decompress`. -/
